@@ -1,12 +1,23 @@
 (* C03 — Every way of obtaining a channel's data gives the same data.
-   The model-level statement is a corollary of the lazy-read theorems of C04
-   (window with offset 0 and no length = full data; chunk streams concatenate
-   to the full data); see Props/C04.v.  Here: the facts about the eager model
-   that the baseline rests on. *)
+
+   Model-level statement: on the byte-level lazy model (Model/LazyBytes.v:
+   metadata pass with segment indexes + chunk decoders + the line-by-line model
+   of read_raw_data_for_channel), whenever the channel's per-segment view is
+   consistent with its metadata (LazyRead.wf: each chunk holds the number of
+   values the metadata says), the full lazy read is the file-order
+   concatenation of the chunk values, and EVERY window — hence channel[:],
+   read_data(), read_data(o, l), slices and integer indices, which all go through
+   it (Props/C04.v slice_plan_correct, index_correct) — is the window of that
+   full read.  Chunk streams: Props/C05.v generators_complete.  Receivers
+   concatenate in file order (below).
+   PARTIAL: that the eager pass (Reader.rd_eager) yields the same concatenation
+   is Props/C01_read.v (for serialised well-formed files); memmap_dir, the
+   {path, stream} and raw_timestamps configurations are covered by the
+   differential run only (harness/c03.py). *)
 From Coq Require Import List ZArith.
 Import ListNotations.
-From NpTdms Require Import Base.Bytes Base.Res Model.Tokens Model.SegState Model.Layout Model.Reader
-     Proofs.ReaderProofs.
+From NpTdms Require Import Base.Bytes Base.Res Base.PySlice Model.Tokens Model.SegState Model.Layout Model.Reader
+     Model.LazyRead Model.LazyBytes Proofs.ReaderProofs.
 Local Open Scope Z_scope.
 
 (* a receiver holds the file-order concatenation of the chunk data it was given *)
@@ -16,4 +27,26 @@ Theorem receiver_concatenates : forall vs1 vs2 acc,
     = Ok (Some (CData (acc ++ vs1 ++ vs2))).
 Proof. exact receive_concat. Qed.
 
+(* the full lazy read of a channel is the concatenation of its chunk values *)
+Theorem lazy_full_is_concatenation : forall data path svs dt,
+    channel_view data path = Ok (svs, Some dt) ->
+    wf bytes svs = true ->
+    lz_read_bytes data path 0 None = Ok (full bytes svs).
+Proof. exact lz_read_bytes_full. Qed.
+
+(* every window read on bytes is the window of the full lazy read *)
+Theorem lazy_window_of_full : forall data path svs dt offs len full_vals,
+    channel_view data path = Ok (svs, Some dt) ->
+    wf bytes svs = true -> 0 <= offs ->
+    (match len with None => True | Some l => 0 <= l end) ->
+    lz_read_bytes data path 0 None = Ok full_vals ->
+    lz_read_bytes data path offs len =
+    Ok (match len with
+        | None => zskipn offs full_vals
+        | Some l => zfirstn l (zskipn offs full_vals)
+        end).
+Proof. exact lz_read_bytes_window_of_full. Qed.
+
 Print Assumptions receiver_concatenates.
+Print Assumptions lazy_full_is_concatenation.
+Print Assumptions lazy_window_of_full.
